@@ -788,6 +788,11 @@ func runBatch(specs []*PlanSpec, seed uint64) []*PlanObs {
 			for _, r := range ob.Runs {
 				rc := *r
 				rc.Stuck = out[i].Hang && time.Since(r.lastAt) > time.Second
+				if len(r.Last.Atts) > r.Calls {
+					// an attempt without an invocation: the worker pool did not get to start the plugin before the
+					// attempt's deadline (Pool.Submit gives up when its context is done). Machine load; re-run.
+					pr.disturbed = append(pr.disturbed, fmt.Sprintf("not-entered: %s recorded %d attempts for %d invocations", ob.Path, len(r.Last.Atts), r.Calls))
+				}
 				rc.Ctx = append([]bool{}, r.Ctx...)
 				rc.Eff = append([]Outcome{}, r.Eff...)
 				rc.Events = append([]string{}, r.Events...)
@@ -1019,7 +1024,14 @@ func main() {
 			w.Put(c)
 			continue
 		}
-		if len(o.Disturbed) > 0 && !o.Hang {
+		onlyNotEntered := len(o.Disturbed) > 0
+		for _, d := range o.Disturbed {
+			if !strings.HasPrefix(d, "not-entered:") {
+				onlyNotEntered = false
+			}
+		}
+		// an attempt recorded without an invocation in four runs in a row is not machine load: compare it as it is
+		if len(o.Disturbed) > 0 && !o.Hang && !onlyNotEntered {
 			// still disturbed by machine load after three re-runs: what the engine saw is ambiguous; not compared
 			c.Note = "dropped: disturbed: " + strings.Join(o.Disturbed, "; ")
 			c.Coq = "[]"
